@@ -44,6 +44,18 @@ Proof. intros c ns a h H1 H2 H3. apply (C02_backend (x86_choice c) ns a h H1 H2 
 Theorem C02_empty : forall b ns a, fst (backend_rfind ns a [] b) = Ok None.
 Proof. intros b ns a. destruct b; reflexivity. Qed.
 
+(* raw-pointer forms: rfind_raw(start, end); None when start >= end *)
+Theorem C02_raw : forall (b : backend) ns a h so eo,
+  ns <> [] -> bytes_ok h -> bytes_ok ns -> eo <= length h ->
+  fst (backend_rfind_raw ns a h so eo b)
+    = Ok (if eo <=? so then None else option_map (fun i => so + i) (last_idx (confirm ns) (raw_range h so eo))) /\
+  loads_ok (a + so) (eo - so) 0 0 (snd (backend_rfind_raw ns a h so eo b)).
+Proof.
+  intros b ns a h so eo Hns Hh Hn He.
+  destruct (satq_fst _ _ _ (backend_rfind_raw_sat ns a h so eo Hns Hh Hn He b)) as (v & Hv & -> & Ht).
+  split; assumption.
+Qed.
+
 (* non-vacuity: unaligned END, last match only in the final overlapping load at the START *)
 Example C02_example :
   fst (backend_rfind [255]%N 3 ([120; 255; 120]%N ++ repeat 120%N 70) BAvx2) = Ok (Some 1) /\
@@ -57,3 +69,4 @@ Print Assumptions C02_dispatch.
 Print Assumptions C02_spec_some.
 Print Assumptions C02_spec_none.
 Print Assumptions C02_empty.
+Print Assumptions C02_raw.
